@@ -5,6 +5,7 @@
  * @bounds K sequences (1 quick, 2 thorough) with EVERY field arbitrary: literal length and match length over their full 16-bit store range, offset code 1..2^29-1 (everything the predefined offset table can carry), encoded with the three predefined distributions and decoded with the decoder's hard-coded default tables
  * @assume output buffer 64 bytes inside an arena with 64 bytes of front slack (the bit reader compares pointers slightly before the start of its buffer)
  * @outside long-length markers (> 65535), compressed / RLE table modes (c01.seq_section, thorough), offsets >= 2^29 (long-offset path of 32-bit builds)
+ * @prep extract lib/compress/zstd_compress.c ZSTD_seqToCodes seq_to_codes.inc
  * @link lib/common/zstd_common.c lib/common/error_private.c lib/common/fse_decompress.c lib/common/entropy_common.c lib/compress/fse_compress.c lib/compress/zstd_compress_sequences.c lib/compress/hist.c
  * @mem native
  * @cbmc --unwind 70 --object-bits 11
@@ -17,6 +18,8 @@
 #include <string.h>
 #include "decompress/zstd_decompress_block.c"
 #include "compress/zstd_compress_sequences.h"
+#include "compress/zstd_compress_internal.h"
+#include "seq_to_codes.inc"
 
 void harness(void)
 {
